@@ -152,6 +152,10 @@ var callRules = map[string]callRule{
 	"crypto/tls.Dial":           {"DialTLS", false, false, "crypto/tls"},
 	"crypto/tls.DialWithDialer": {"DialTLSWithDialer", false, false, "crypto/tls"},
 	"(*golang.org/x/sync/semaphore.Weighted).Acquire": {"SemAcquire", true, true, ""},
+	"(*sync.Once).Do":   {"OnceDo", true, true, ""},
+	"(*sync.Map).Range": {"SyncMapRange", true, false, ""},
+	"(*sync.Pool).Get":  {"PoolGet", true, false, ""},
+	"(*sync.Pool).Put":  {"PoolPut", true, false, ""},
 }
 
 // constructs that are known, deliberately not simulated, and only counted
@@ -163,8 +167,8 @@ var allowed = map[string]string{
 }
 
 var forbidden = map[string]bool{
-	"(*sync.Mutex).TryLock": true, "(*sync.Once).Do": true, "(sync.Locker).Lock": true, "(sync.Locker).Unlock": true,
-	"(*sync.Map).Range": true, "time.AfterFunc": true, "time.Tick": false,
+	"(*sync.Mutex).TryLock": true, "(sync.Locker).Lock": true, "(sync.Locker).Unlock": true,
+	"time.AfterFunc": true, "time.Tick": false,
 }
 
 func main() {
@@ -193,6 +197,7 @@ func main() {
 			strings.Contains(path, "/cupcake/rdb/examples") ||
 			strings.Contains(path, "/integration-test")
 	}
+	analyseGlobals(pkgs, skip)
 	nfiles := 0
 	for _, p := range pkgs {
 		if skip(p.PkgPath) {
@@ -217,6 +222,7 @@ func main() {
 			rel, _ := filepath.Rel(abs, name)
 			fc := &fileCtx{pkg: p, file: file, src: src, rel: rel, keep: map[string]bool{}}
 			fc.process()
+			fc.emitResets()
 			if fc.changed {
 				out := fc.apply()
 				if err := os.WriteFile(name, out, 0644); err != nil {
@@ -227,6 +233,7 @@ func main() {
 			}
 		}
 	}
+	writeResetRegistrations()
 	stats["files_rewritten"] = nfiles
 	if len(errList) > 0 {
 		sort.Strings(errList)
@@ -237,6 +244,284 @@ func main() {
 	}
 	b, _ := json.Marshal(stats)
 	fmt.Println(string(b))
+}
+
+// ---------------------------------------------------------------------------------------------------------------
+// Package-level mutable state (DESIGN.md §3.1, "globals").
+//
+// A package-level variable of the tool that is written by ordinary code (assigned, incremented, element- or
+// field-assigned, address-taken, or used as the receiver of a pointer method) is state shared by every goroutine of
+// the process. Two things follow for the simulation:
+//   1. every statement that touches such a variable is a scheduling point (simrt.Pre), so that unsynchronised
+//      read-modify-write sequences on it interleave under the scheduler's control like everything else;
+//   2. the variable is re-initialised before every simulated run (simrt.ResetGlobals), because one worker process
+//      executes many runs and the real tool starts each of its runs from a fresh process image.
+// The configuration record configure.Options is exempt: it is written before any goroutine starts.
+
+const optionsVar = "github.com/alibaba/RedisShake/redis-shake/configure.Options"
+
+var (
+	mutatedGlobal = map[*types.Var]bool{}
+	globalPkgs    = map[*types.Package]bool{}
+)
+
+func isPkgLevel(v *types.Var) bool {
+	return v != nil && v.Pkg() != nil && !v.IsField() && v.Parent() == v.Pkg().Scope()
+}
+
+// rootVar returns the package-level variable an lvalue-ish expression is rooted in, if any.
+func rootVar(info *types.Info, e ast.Expr) *types.Var {
+	for {
+		switch x := e.(type) {
+		case *ast.ParenExpr:
+			e = x.X
+		case *ast.IndexExpr:
+			e = x.X
+		case *ast.SliceExpr:
+			e = x.X
+		case *ast.StarExpr:
+			e = x.X
+		case *ast.SelectorExpr:
+			if id, ok := x.X.(*ast.Ident); ok {
+				if _, isPkg := info.Uses[id].(*types.PkgName); isPkg {
+					if v, ok := info.Uses[x.Sel].(*types.Var); ok && isPkgLevel(v) {
+						return v
+					}
+					return nil
+				}
+			}
+			e = x.X
+		case *ast.Ident:
+			if v, ok := info.Uses[x].(*types.Var); ok && isPkgLevel(v) {
+				return v
+			}
+			return nil
+		default:
+			return nil
+		}
+	}
+}
+
+func markMutated(v *types.Var) {
+	if v == nil || !globalPkgs[v.Pkg()] {
+		return
+	}
+	if v.Pkg().Path()+"."+v.Name() == optionsVar {
+		return
+	}
+	mutatedGlobal[v] = true
+}
+
+// analyseGlobals finds the package-level variables that ordinary code (anything but func init) writes.
+func analyseGlobals(pkgs []*packages.Package, skip func(string) bool) {
+	for _, p := range pkgs {
+		if !skip(p.PkgPath) && len(p.Errors) == 0 && p.Types != nil {
+			globalPkgs[p.Types] = true
+		}
+	}
+	for _, p := range pkgs {
+		if skip(p.PkgPath) || len(p.Errors) > 0 {
+			continue
+		}
+		info := p.TypesInfo
+		for i, file := range p.Syntax {
+			if strings.HasSuffix(p.CompiledGoFiles[i], "_test.go") {
+				continue
+			}
+			scan := func(body ast.Node) {
+				ast.Inspect(body, func(n ast.Node) bool {
+					switch x := n.(type) {
+					case *ast.AssignStmt:
+						if x.Tok != token.DEFINE {
+							for _, l := range x.Lhs {
+								markMutated(rootVar(info, l))
+							}
+						}
+					case *ast.IncDecStmt:
+						markMutated(rootVar(info, x.X))
+					case *ast.RangeStmt:
+						if x.Tok == token.ASSIGN {
+							if x.Key != nil {
+								markMutated(rootVar(info, x.Key))
+							}
+							if x.Value != nil {
+								markMutated(rootVar(info, x.Value))
+							}
+						}
+					case *ast.UnaryExpr:
+						if x.Op == token.AND {
+							markMutated(rootVar(info, x.X))
+						}
+					case *ast.CallExpr:
+						if sel, ok := x.Fun.(*ast.SelectorExpr); ok {
+							if s := info.Selections[sel]; s != nil && s.Kind() == types.MethodVal {
+								if fn, ok := s.Obj().(*types.Func); ok {
+									if sig, ok := fn.Type().(*types.Signature); ok && sig.Recv() != nil {
+										if _, ptrRecv := sig.Recv().Type().(*types.Pointer); ptrRecv {
+											if tv, ok := info.Types[sel.X]; ok {
+												if _, isPtr := tv.Type.Underlying().(*types.Pointer); !isPtr {
+													markMutated(rootVar(info, sel.X)) // implicit &x
+												}
+											}
+										}
+									}
+								}
+							}
+						}
+					}
+					return true
+				})
+			}
+			for _, d := range file.Decls {
+				switch x := d.(type) {
+				case *ast.FuncDecl:
+					if x.Body == nil || (x.Recv == nil && x.Name.Name == "init") {
+						continue
+					}
+					scan(x.Body)
+				case *ast.GenDecl:
+					if x.Tok != token.VAR {
+						continue
+					}
+					for _, sp := range x.Specs {
+						for _, v := range sp.(*ast.ValueSpec).Values {
+							ast.Inspect(v, func(n ast.Node) bool {
+								if fl, ok := n.(*ast.FuncLit); ok {
+									scan(fl.Body)
+									return false
+								}
+								return true
+							})
+						}
+					}
+				}
+			}
+		}
+	}
+	stats["mutated_globals"] = len(mutatedGlobal)
+}
+
+// refsMutatedGlobal reports the first mutated package-level variable referenced inside n (function literals excluded:
+// their bodies are instrumented on their own).
+func refsMutatedGlobal(info *types.Info, n ast.Node) *types.Var {
+	if n == nil {
+		return nil
+	}
+	var found *types.Var
+	ast.Inspect(n, func(m ast.Node) bool {
+		if found != nil {
+			return false
+		}
+		switch x := m.(type) {
+		case *ast.FuncLit:
+			return false
+		case *ast.Ident:
+			if v, ok := info.Uses[x].(*types.Var); ok && mutatedGlobal[v] {
+				found = v
+			}
+		}
+		return true
+	})
+	return found
+}
+
+// emitResets appends, to the file that declares them, one re-initialisation function per mutated package-level
+// variable spec, and records their names per package in initialisation order.
+var resetFuncs = map[*packages.Package][]string{} // package -> function names, zeroing first
+
+func (f *fileCtx) emitResets() {
+	info := f.pkg.TypesInfo
+	var zero, reinit []string
+	var text strings.Builder
+	for _, d := range f.file.Decls {
+		gd, ok := d.(*ast.GenDecl)
+		if !ok || gd.Tok != token.VAR {
+			continue
+		}
+		for _, sp := range gd.Specs {
+			vs := sp.(*ast.ValueSpec)
+			any := false
+			for _, n := range vs.Names {
+				if v, ok := info.Defs[n].(*types.Var); ok && mutatedGlobal[v] {
+					any = true
+				}
+			}
+			if !any {
+				continue
+			}
+			first := ""
+			for _, n := range vs.Names {
+				if n.Name != "_" {
+					first = n.Name
+					break
+				}
+			}
+			switch {
+			case len(vs.Values) == 0:
+				for _, n := range vs.Names {
+					if v, ok := info.Defs[n].(*types.Var); ok && mutatedGlobal[v] {
+						fn := "verifZero_" + n.Name
+						fmt.Fprintf(&text, "\nfunc %s() { simrt.ZeroOut(&%s) }\n", fn, n.Name)
+						zero = append(zero, fn)
+						stats["global_reset"]++
+					}
+				}
+			case len(vs.Values) == len(vs.Names):
+				for i, n := range vs.Names {
+					if v, ok := info.Defs[n].(*types.Var); ok && mutatedGlobal[v] {
+						fn := "verifReset_" + n.Name
+						fmt.Fprintf(&text, "\nfunc %s() { %s = %s }\n", fn, n.Name, f.text(vs.Values[i]))
+						reinit = append(reinit, fn)
+						stats["global_reset"]++
+					}
+				}
+			default: // a, b = f()
+				var names []string
+				for _, n := range vs.Names {
+					names = append(names, n.Name)
+				}
+				fn := "verifReset_" + first
+				fmt.Fprintf(&text, "\nfunc %s() { %s = %s }\n", fn, strings.Join(names, ", "), f.text(vs.Values[0]))
+				reinit = append(reinit, fn)
+				stats["global_reset"]++
+			}
+		}
+	}
+	if text.Len() == 0 {
+		return
+	}
+	f.insOff(len(f.src), "\n// ---- added by the instrumenter: re-initialisation of mutated package-level state\nvar _ = simrt.ZeroOut\n"+text.String())
+	resetFuncs[f.pkg] = append(append(zero, resetFuncs[f.pkg]...), reinit...)
+}
+
+// writeResetRegistrations creates verif_reset.go in every package that has reset functions.
+func writeResetRegistrations() {
+	for p, fns := range resetFuncs {
+		if len(fns) == 0 || len(p.CompiledGoFiles) == 0 {
+			continue
+		}
+		// order: zeroing functions first (already in front), then initialisers in the package's initialisation order
+		rank := map[string]int{}
+		for i, in := range p.TypesInfo.InitOrder {
+			for _, l := range in.Lhs {
+				if _, ok := rank["verifReset_"+l.Name()]; !ok {
+					rank["verifReset_"+l.Name()] = i + 1
+				}
+			}
+		}
+		sort.SliceStable(fns, func(i, j int) bool { return rank[fns[i]] < rank[fns[j]] })
+		var b strings.Builder
+		fmt.Fprintf(&b, "package %s\n\n// Added by the instrumenter (scratch copy only).\n\nimport simrt %q\n\nfunc init() {\n", p.Name, simrtPath)
+		for _, fn := range fns {
+			fmt.Fprintf(&b, "\tsimrt.RegisterReset(%q, %s)\n", p.PkgPath+"."+fn, fn)
+		}
+		b.WriteString("}\n")
+		dir := filepath.Dir(p.CompiledGoFiles[0])
+		if err := os.WriteFile(filepath.Join(dir, "verif_reset.go"), []byte(b.String()), 0644); err != nil {
+			fmt.Fprintln(os.Stderr, err)
+			os.Exit(2)
+		}
+	}
 }
 
 func (f *fileCtx) apply() []byte {
@@ -281,6 +566,19 @@ func (f *fileCtx) apply() []byte {
 	}
 	out = append(out, f.src[pos:]...)
 	return out
+}
+
+// inFunc: the node on top of the stack lies inside a function body other than a top-level func init.
+func inFunc(stack []ast.Node) bool {
+	for i := len(stack) - 1; i >= 0; i-- {
+		switch x := stack[i].(type) {
+		case *ast.FuncLit:
+			return true
+		case *ast.FuncDecl:
+			return !(x.Recv == nil && x.Name.Name == "init")
+		}
+	}
+	return false
 }
 
 func (f *fileCtx) process() {
@@ -328,6 +626,31 @@ func (f *fileCtx) process() {
 		}
 		par := parent(0)
 		stack = append(stack, n)
+		if st, isStmt := n.(ast.Stmt); isStmt && inFunc(stack) && inList(st, par) {
+			var probe []ast.Node
+			switch y := st.(type) {
+			case *ast.ExprStmt, *ast.AssignStmt, *ast.IncDecStmt, *ast.ReturnStmt, *ast.SendStmt, *ast.DeclStmt:
+				probe = []ast.Node{y}
+			case *ast.IfStmt:
+				probe = []ast.Node{y.Init, y.Cond}
+			case *ast.SwitchStmt:
+				probe = []ast.Node{y.Init, y.Tag}
+			case *ast.ForStmt:
+				probe = []ast.Node{y.Init, y.Cond}
+			case *ast.RangeStmt:
+				probe = []ast.Node{y.X}
+			}
+			for _, pn := range probe {
+				if pn == nil {
+					continue
+				}
+				if v := refsMutatedGlobal(info, pn); v != nil {
+					f.ins(st.Pos(), fmt.Sprintf("simrt.Pre(%q); ", "global:"+v.Name()+"@"+f.site(st.Pos())))
+					stats["global_yield"]++
+					break
+				}
+			}
+		}
 		switch x := n.(type) {
 		case *ast.GoStmt:
 			if !inList(x, par) {
@@ -472,12 +795,27 @@ func (f *fileCtx) rewriteCall(x *ast.CallExpr, rule callRule, name string) {
 			fail(f.pkg.Fset, x.Pos(), "method call %s without selector", name)
 			return
 		}
-		if s := info.Selections[sel]; s != nil && len(s.Index()) > 1 {
-			fail(f.pkg.Fset, x.Pos(), "%s through an embedded field is not supported", name)
-			return
-		}
 		rt := info.Types[sel.X].Type
 		recv := "(" + f.text(sel.X) + ")"
+		if s := info.Selections[sel]; s != nil && len(s.Index()) > 1 {
+			// promoted method: spell out the path of embedded fields down to the value the method belongs to
+			cur := rt
+			for _, idx := range s.Index()[:len(s.Index())-1] {
+				if p, ok := cur.Underlying().(*types.Pointer); ok {
+					cur = p.Elem()
+				}
+				st, ok := cur.Underlying().(*types.Struct)
+				if !ok || idx >= st.NumFields() {
+					fail(f.pkg.Fset, x.Pos(), "%s through an embedded field: cannot resolve the path", name)
+					return
+				}
+				fld := st.Field(idx)
+				recv += "." + fld.Name()
+				cur = fld.Type()
+			}
+			rt = cur
+			stats["promoted_method"]++
+		}
 		if _, isPtr := rt.Underlying().(*types.Pointer); !isPtr {
 			recv = "&" + recv
 		}
